@@ -295,7 +295,8 @@ def evaluate(case):
         todo = [[op] for op in ops[case["lo"] : case["hi"]]]
     else:
         a = ops[case["i"]]
-        todo = [[a, b] for b in ops[case["i"] + 1 :] if not (a[0] == "wrap" and b[0] == "wrap" and a[1] == b[1])]
+        decl = ("xmldecl", "xmldecl-sameline")
+        todo = [[a, b] for b in ops[case["i"] + 1 :] if not (a[0] == "wrap" and b[0] == "wrap" and a[1] == b[1]) and not (a[0] in decl and b[0] in decl)]
     for oplist in todo:
         n += 1
         try:
